@@ -53,6 +53,21 @@ CHECKS = {
         "carved out (known_findings.json).",
         TRUST + "Outside: widths >= 32 and 16-bit fixed-divisor forms (two dividers of the same operands stall the SAT back end; "
         "the code is one macro body for all widths).", KANI, "DESIGN.md 4 C07"),
+    "C08": (
+        "Bounded model checking of the real parser on symbolic strings: 8-bit types: every ASCII string up to 4 (quick) / 5 bytes is Ok "
+        "exactly when well-formed; every digit string of the listed shapes (up to 3+5 decimal digits; hex/octal/binary shapes) gives "
+        "the nearest value, ties to even, with exact overflow flag / wrapped value (exact u64 division oracle), all four forms on "
+        "selected shapes; 16-bit slow path (7 fraction digits); tie-anchored literals with a 3-digit symbolic window.",
+        TRUST + "Outside: longer strings, long decimals of 32/64/128-bit types not anchored at a tie, non-ASCII input, error kinds.",
+        KANI, "DESIGN.md 4 C08"),
+    "C09": (
+        "Bounded model checking of the real formatting code through core::fmt into a stack buffer: for every value of the instantiated "
+        "8-bit layouts the printed decimal digits satisfy the exact rounding inequality at the digits shown (default and requested "
+        "precision 0..=10), the default output parses back to the same value through the real parser, binary/octal/hex outputs parse "
+        "back exactly, and six flag/width combinations only add padding, sign and prefix. One genuine defect (close-to-zero cut-off) "
+        "is a known finding with its region carved out.",
+        TRUST + "Stub: core::str::from_utf8 -> ASCII-asserting equivalent. Outside: 16..128-bit types, precision > 10, width > 14.",
+        KANI, "DESIGN.md 4 C09"),
     "C10": (
         "Bounded model checking of the compiled crate: for each instantiated alias CBMC decides, over every bit "
         "pattern / every byte string of the type's width, that encode/decode/max_encoded_len and all byte views "
@@ -62,6 +77,53 @@ CHECKS = {
         "Kani proof harnesses (CBMC bit-precise SAT) over symbolic bit patterns and byte strings",
         "DESIGN.md 4 C10"),
 }
+
+CHECKS.update({
+    "C11": (
+        "Decomposed claim: a source inventory regenerated on every run (no debug_assertions-conditional code, no unsafe) plus bounded "
+        "model checking with debug assertions and overflow checks ON: for the total entry points (all arithmetic policy forms, "
+        "rounding, conversions, float conversions, remainders/Euclidean forms at 8 bits, Wrapping, exp/sin) no check of the checking "
+        "profile can fire for any operand of the instantiated aliases; an execution in which no check fires is the execution of the "
+        "non-checking profile, so values agree.",
+        TRUST + "The non-checking profile itself is not compiled by the solver front end; counterexamples are replayed natively in "
+        "both profiles. Outside: entry points / aliases not instantiated, 64/128-bit division.", KANI + " + source inventory",
+        "DESIGN.md 4 C11"),
+    "C12": (
+        "Bounded model checking: for I9F23 every operand (2^32) of exp, log2, sin, cos (|x|<=200), tan (clear of poles) returns without "
+        "any failed check; sqrt/ln/pow on operand families (every binade +- 255 ulps, extremes) and full range in the thorough tier; "
+        "sin on 64/128-bit types over |x|<=200; powi for |n|<=6 and extreme exponents; undefined requests yield Err.",
+        TRUST + "Outside: sqrt/log2/ln/pow on 64/128-bit types (memory), most powi exponents.", KANI, "DESIGN.md 4 C12"),
+    "C13": (
+        "Bounded model checking on neighbourhoods: for each of 2^8 consecutive operands around 0, 1, powers of two, the Err threshold, "
+        "the maximum and seeded points, sqrt::<I9F23> / <U9F23> satisfies (r-4)^2 <= x*2^F <= (r+4)^2 in exact integer arithmetic.",
+        TRUST + "Coverage is a union of small neighbourhoods, not the operand range; wide types only by one concrete witness of the "
+        "known defect.", KANI + " (algebraic oracle)", "DESIGN.md 4 C13"),
+    "C14": (
+        "Bounded model checking on neighbourhoods of 2^8 operands: log2 / ln of I9F23 lie within the property's tolerance of an "
+        "outward-rounded linear enclosure of the true function computed with 200-bit interval arithmetic on every run.",
+        TRUST + "mpmath.iv. Coverage is a union of small neighbourhoods.", KANI + " + interval-arithmetic enclosures", "DESIGN.md 4 C14"),
+    "C15": (
+        "Bounded model checking: exp::<I9F23> on neighbourhoods of 2^8 operands against interval enclosures (2^-20 relative + 64 ulp); "
+        "powi conventions (0^n, x^0, x^1, 0^y) and n in {2,3} for every operand against the exact rational power.",
+        TRUST + "mpmath.iv. Outside: pow accuracy, |n| > 3, wide types.", KANI + " + interval-arithmetic enclosures", "DESIGN.md 4 C15"),
+    "C16": (
+        "Bounded model checking: sin/cos::<I9F23> for EVERY angle of the instantiated intervals of width 0.25 lie within 2^-16 of a "
+        "piecewise-linear enclosure of the true function (thorough: the whole primary range) and inside [-1-2^-16, 1+2^-16]; the "
+        "argument reduction is exact for every |x| <= 200 (cut-point hook), which with the 1-Lipschitz lemma carries the primary-range "
+        "result to far angles.",
+        TRUST + "mpmath.iv, the observe() hook. Outside: tan accuracy, CORDIC accuracy on wide types.",
+        KANI + " + interval-arithmetic enclosures + cut-point hook", "DESIGN.md 4 C16"),
+    "C17": (
+        "Bounded model checking with the iteration-counter hook: the solver proves for every operand that no call exceeds the TIGHT "
+        "budget W+32 loop iterations (unwinding assertions on); a counterexample is replayed natively against the property's budget "
+        "4W+64 and reported only if it exceeds that.",
+        TRUST + "the tick() hook (add-only). Outside: sqrt/ln/log2/exp on wide types (their loops have literal bounds), pow.",
+        KANI + " + budgeted loop counter hook", "DESIGN.md 4 C17"),
+    "C18": (
+        "Bounded model checking: every operator/method of Wrapping<F> instantiated equals F's wrapping_* method (or the exact result "
+        "mod 2^W for products, multiply-back for quotients) for all operands; zero divisors must panic; every 3-operation program.",
+        TRUST + "Outside: division through Wrapping on widths >= 32, multiplication on 64/128 bits.", KANI, "DESIGN.md 4 C18"),
+})
 
 NOT_YET = {}
 
@@ -127,7 +189,7 @@ def main():
         print("MANIFEST.json written (jsonschema not available for validation)")
 
 
-HOOK_COMMITS = []
+HOOK_COMMITS = ["7047929"]
 
 if __name__ == "__main__":
     main()
